@@ -27,6 +27,26 @@ SEEDS = {
         "a complete first bring-up against an NCP of version != 4 followed by a later reset and renegotiation"),
     "C10-reset-pending-swallows-failure": ("C10", "Gateway.reset_received tests the pending reset/start-up futures before the reset code",
         "an ERROR frame / retry exhaustion / non-software RSTACK arriving exactly while a reset request (or start-up wait) is pending, with an application callback registered"),
+    "C11-shielded-reset-future": ("C11", "Gateway.reset awaits asyncio.shield(self._reset_future): a timeout no longer cancels the inner future, which stays installed",
+        "a reset that times out with no RSTACK at all, no late RSTACK / connection loss afterwards, then another reset request: it writes no RST and never completes"),
+    "C12-lock-only-with-setup": ("C12", "send_packet takes the request lock only for packets that have set-up commands",
+        "a unicast with source route / extended timeout mid-set-up (awaiting an NCP response) while a packet without set-up is submitted: its send command lands between the other's set-up and send"),
+    "C13-join-dropped-while-mfg-task": ("C13", "_handle_tc_join_handler returns early when the manufacturer-id override task is still pending, skipping handle_join",
+        "a joining device whose EUI64 has a Xiaomi/Lumi prefix, less than 180 s after an earlier such join on the same running application"),
+    "C14-zero-counter-not-written": ("C14", "write_nwk_frame_counter / write_aps_frame_counter (v5+) skip the setValue when the counter is 0",
+        "an adapter that previously held a network with a non-zero counter, then a network written with counter exactly 0, on EZSP 5..12 (from v13 the factory reset zeroes the token)"),
+    "C15-unsubscribe-pop-before-write": ("C15", "unsubscribe pops the group before the table write and restores it only on a rejection status",
+        "the table write issued by unsubscribe ends in a command timeout (not a rejection) for a currently subscribed group"),
+    "C16-zero-override-dropped": ("C16", "user_supplied = {name for name, value in config.items() if value}: an override of 0 is not treated as user-supplied",
+        "a user override whose value is exactly 0 on a grow-only setting that the NCP reports readable"),
+    "C17-listener-finally-dropped": ("C17", "wait_for_stack_status loses its try/finally: the listener is removed only on normal exit or by the future's done-callback",
+        "form / leave / bring-up ending with an exception (refused command, command raising, cancellation) while the status future is still pending"),
+    "C18-lru-cache-on-conversion": ("C18", "from_ember_status wrapped in functools.lru_cache: equal numbers of different status families share a cache entry",
+        "two same-numbered statuses of different families converted in one process, the 'wrong' family first"),
+    "C19-early-return-skips-clear": ("C19", "_watchdog_feed returns early (inside the try) when the free-buffer read has no value, skipping the else: that clears the failure count",
+        "protocol version other than 4, the NCP answering getValue(FREE_BUFFERS) with an error status, and more than four failures in total separated by successes"),
+    "C20-closed-check-after-coroutine": ("C20", "the closed-loop guard of ThreadsafeProxy moved behind the coroutine branch",
+        "a coroutine method called through the proxy from another loop after the owner's loop was closed: RuntimeError instead of a dropped call"),
 }
 
 
